@@ -81,11 +81,13 @@ def default_body(method, path, body_bytes):
             i += 1 if op == "delete" else 2
         return {"took": took, "errors": False, "items": items}
     if p.endswith("/_search") or p.endswith("/_async_search"):
-        return {"took": 2, "timed_out": False, "_shards": {"total": 1, "successful": 1, "skipped": 0, "failed": 0}, "hits": {"total": {"value": 3, "relation": "eq"}, "hits": [{"_id": "1", "sort": [1]}, {"_id": "2", "sort": [2]}, {"_id": "3", "sort": [3]}]}}
+        return {"_scroll_id": "c2ltLXNjcm9sbA==", "took": 2, "timed_out": False, "_shards": {"total": 1, "successful": 1, "skipped": 0, "failed": 0}, "hits": {"total": {"value": 3, "relation": "eq"}, "hits": [{"_id": "1", "sort": [1]}, {"_id": "2", "sort": [2]}, {"_id": "3", "sort": [3]}]}}
     if p.startswith("/_cluster/health"):
         return {"cluster_name": "sim", "status": "green", "timed_out": False, "number_of_nodes": 1, "relocating_shards": 0, "initializing_shards": 0, "unassigned_shards": 0}
     if p.endswith("/_refresh") or p.endswith("/_forcemerge") or p.endswith("/_flush"):
         return {"_shards": {"total": 2, "successful": 2, "failed": 0}}
+    if p.startswith("/_cluster/settings"):
+        return {"acknowledged": True, "persistent": {}, "transient": {}}
     if method == "HEAD":
         return {}
     if p == "":
